@@ -214,7 +214,18 @@ def floordiv_term(a, b, it=None):
             it.path._fdiv_axioms = True
             for ax in floordiv_axioms():
                 it.path.add_hyp(ax)
-        return FDIV(a, b)
+        # the quotient is named by a constant (z3's non-linear reasoning does not look inside function
+        # applications that occur in products); it is tied to FDIV(a, b) so that quantified facts about FDIV apply
+        memo = it.path.__dict__.setdefault("_fdiv_memo", {})
+        a_s = z3.simplify(a)
+        key = (a_s.get_id(), b.get_id())
+        hit = memo.get(key)
+        if hit is not None:
+            return hit[0]
+        F = z3.Int(f"quot!{len(memo)}")
+        memo[key] = (F, a_s, b)
+        it.path.assume(z3.And(b * F <= a, a < b * F + b, F == FDIV(a, b)))
+        return F
     return z3.If(b > 0, a / b, (-a) / (-b))
 
 
@@ -258,8 +269,8 @@ def complex_binop(opname, l, r):
 
 
 def binop(it, opname, l, r, inplace=False):
-    lsym = isinstance(l, (Sym, SymComplex)) or hasattr(l, "sym_binop")
-    rsym = isinstance(r, (Sym, SymComplex)) or hasattr(r, "sym_binop")
+    lsym = isinstance(l, (Sym, SymComplex)) or hasattr(type(l), "sym_binop")
+    rsym = isinstance(r, (Sym, SymComplex)) or hasattr(type(r), "sym_binop")
     if not lsym and not rsym:
         if isinstance(l, SymSeq) or isinstance(r, SymSeq):
             from . import models
@@ -271,11 +282,11 @@ def binop(it, opname, l, r, inplace=False):
             f = getattr(operator, "i" + opname.rstrip("_") if opname not in ("or_", "and_") else "i" + opname[:-1])
             return f(l, r)
         return getattr(operator, opname)(l, r)
-    if hasattr(l, "sym_binop"):
+    if hasattr(type(l), "sym_binop"):
         res = l.sym_binop(it, opname, r, False)
         if res is not NotImplemented:
             return res
-    if hasattr(r, "sym_binop"):
+    if hasattr(type(r), "sym_binop"):
         res = r.sym_binop(it, opname, l, True)
         if res is not NotImplemented:
             return res
@@ -299,7 +310,7 @@ def binop(it, opname, l, r, inplace=False):
             return mk_int(a - b * floordiv_term(a, b, it))
         if opname == "truediv":
             _nonzero(it, b)
-            return Sym(z3.ToReal(a) / z3.ToReal(b), "ratio")
+            return Sym(z3.ToReal(a) / z3.ToReal(b), "ratio", tag=(a, b))
         raise Unsupported(f"int {opname} on symbols")
     if (tl is float or tr is float) and tl in (int, bool, float) and tr in (int, bool, float):
         a, b = as_f64_term(l), as_f64_term(r)
@@ -475,9 +486,9 @@ def compare(it, op, l, r):
             return same if t is ast.Is else not same
         return _NATIVE[t](l, r)
     if not isinstance(l, (Sym, SymComplex)) and not isinstance(r, (Sym, SymComplex)):
-        if hasattr(l, "sym_compare"):
+        if hasattr(type(l), "sym_compare"):
             return l.sym_compare(it, op, r, False)
-        if hasattr(r, "sym_compare"):
+        if hasattr(type(r), "sym_compare"):
             return r.sym_compare(it, op, l, True)
         if isinstance(l, SymSeq) or isinstance(r, SymSeq):
             raise Unsupported("comparison of symbolic sequences")
@@ -509,7 +520,7 @@ def compare(it, op, l, r):
 
 
 def contains(it, container, item):
-    if hasattr(container, "sym_contains"):
+    if hasattr(type(container), "sym_contains"):
         return container.sym_contains(it, item)
     if isinstance(container, SymSeq):
         raise Unsupported("membership in symbolic sequence")
@@ -657,7 +668,7 @@ def _neg_slice_bounds(it, sl, n, st):
 
 
 def subscript(it, obj, key):
-    if hasattr(obj, "sym_getitem"):
+    if hasattr(type(obj), "sym_getitem"):
         return obj.sym_getitem(it, key)
     if isinstance(obj, SymSeq):
         from . import models
@@ -686,6 +697,10 @@ def subscript(it, obj, key):
                 if it.truth(mk_bool(key.term == i)):
                     return obj[i]
             raise IndexError("index out of range")
+        if type(obj).__module__.startswith("construct") and key.pyt is int:
+            import construct as _C
+
+            return _C.Array(key, obj)  # Construct.__getitem__(count): count repetitions (count may be symbolic)
         raise Unsupported(f"symbolic key on {type(obj).__name__}")
     if isinstance(key, slice) and any(isinstance(x, Sym) for x in (key.start, key.stop, key.step)):
         if isinstance(obj, (list, tuple)):
